@@ -19,6 +19,7 @@ type verifC11Estimator struct {
 	weights     []float64
 	asked       []float64
 	answers     []float64
+	expect      *int64 // the latency being added, when the harness tracks it
 }
 
 func verifC11Stubs() *verifC11Estimator {
@@ -28,6 +29,9 @@ func verifC11Stubs() *verifC11Estimator {
 		return &tdigest.TDigest{}
 	})
 	verif_stub("(*github.com/influxdata/tdigest.TDigest).Add", func(t *tdigest.TDigest, x, w float64) {
+		if e.expect != nil {
+			verif_assert(x == float64(*e.expect) && w == 1, "C11.sample-is-the-latency-with-weight-one")
+		}
 		e.samples = append(e.samples, x)
 		e.weights = append(e.weights, w)
 	})
@@ -72,29 +76,42 @@ func verif_harness_C11_percentiles() {
 	e := verifC11Stubs()
 	var m Metrics
 	lat := make([]int64, n)
+	// a periodic report closes the metrics between results as well
+	closeAfter := verif_choose("intermediate_close_after", n) // 0: none
 	for i := range lat {
 		lat[i] = verif_nondet_i64("latency")
 		verif_assume(lat[i] >= 0 && lat[i] < 1<<53)
-		m.Add(&Result{Code: 200, Timestamp: time.Unix(0, 1000), Latency: time.Duration(lat[i])})
+		code := uint16(200)
+		if verif_nondet_bool("failed") {
+			code = 500
+		}
+		e.expect = &lat[i]
+		m.Add(&Result{Code: code, Timestamp: time.Unix(0, 1000), Latency: time.Duration(lat[i])})
+		if i+1 == closeAfter {
+			m.Close()
+		}
 	}
+	e.expect = nil
+	verif_assert(len(e.samples) == n, "C11.every-latency-reaches-the-estimator-once")
+	askedBefore := len(e.asked)
 	m.Close()
 
 	verif_assert(len(e.compression) == 1 && e.compression[0] >= 100, "C11.estimator-built-once-with-compression-at-least-100")
 	verif_assert(len(e.samples) == n, "C11.every-latency-reaches-the-estimator-once")
-	for i := 0; i < n && i < len(e.samples); i++ {
-		verif_assert(e.samples[i] == float64(lat[i]) && e.weights[i] == 1, "C11.sample-is-the-latency-with-weight-one")
-	}
-	verif_assert(len(e.asked) == 4, "C11.close-asks-for-four-quantiles")
-	if len(e.asked) != 4 {
-		return
-	}
+	// each percentile field holds an answer the estimator gave for that
+	// quantile after the last latency was added
 	l := m.Latencies
-	want := map[float64]time.Duration{0.50: l.P50, 0.90: l.P90, 0.95: l.P95, 0.99: l.P99}
-	for k, q := range e.asked {
-		d, ok := want[q]
-		verif_assert(ok, "C11.only-the-documented-quantiles-are-asked")
-		verif_assert(ok && d == time.Duration(e.answers[k]), "C11.field-holds-the-quantile-of-its-name")
-		delete(want, q)
+	for _, f := range []struct {
+		q float64
+		d time.Duration
+	}{{0.50, l.P50}, {0.90, l.P90}, {0.95, l.P95}, {0.99, l.P99}} {
+		found := false
+		for k := askedBefore; k < len(e.asked); k++ {
+			if e.asked[k] == f.q && time.Duration(e.answers[k]) == f.d {
+				found = true
+			}
+		}
+		verif_assert(found, "C11.field-holds-the-current-quantile-of-its-name")
 	}
 	verif_assert(l.Min <= l.P50 && l.P50 <= l.P90 && l.P90 <= l.P95 && l.P95 <= l.P99 && l.P99 <= l.Max,
 		"C11.min-p50-p90-p95-p99-max-ordered")
